@@ -82,7 +82,9 @@ def body_derivatives(case, ctx):
         kq = rk.ref_call(spec, q.reshape(1, d), X, th_cov, n)[0]
         mu_scale = float(np.abs(kq) @ alpha_abs) + abs(mean_at(q)) + 1e-300
         for i in range(d):
-            floor_mu = 100 * kappa * EPS * mu_scale / h[i]
+            # round-off of the stencil: the kernel part (amplified by the condition number) and the mean function, whose centred
+            # coordinates carry eps*|x| each times the slope / curvature coefficients
+            floor_mu = 100 * kappa * EPS * mu_scale / h[i] + 16 * gc.mean_roundoff(case["mean"], th_mean, X, Q) / h[i]
             err, tol, conv = numdiff.compare(g_mu[k, i], mean_at, q, i, h[i])
             if not conv:
                 ctx.inconclusive["stencil-not-converged"] += 1
@@ -104,9 +106,15 @@ def body_derivatives(case, ctx):
             if not np.isfinite(err) or err > tol:
                 raise Violation(f"variance-gradient:{tag}", f"spatial_derivatives variance d/dx{i} at query {k} = {s_var[k, i]!r}; stencil differs by {err:.3g} (tol {tol:.3g})")
         # gradient covariance = prior gradient covariance - explained part
-        J = np.zeros((d, n))
-        for i in range(d):
-            J[i] = numdiff.stencil(lambda qq: rk.ref_call(spec, qq.reshape(1, d), X, th_cov, n)[0], q, i, h[i] / 2)
+        # Jacobian of the reference kernel row k(q, x_j) w.r.t. q, from the documented squared-exponential formula:
+        # d/dq_i A^2 exp(-1/2 sum ((q - x)/l)^2) = (x_i - q_i)/l_i^2 * k(q, x)   (a stencil of the reference row is used as a
+        # cross-check only where the coordinates are small enough for it to be accurate)
+        J = np.array([(X[:, i] - q[i]) / L[i] ** 2 * kq for i in range(d)])
+        if np.max(np.abs(q)) < 1e3 * np.min(L):
+            for i in range(d):
+                Js = numdiff.stencil(lambda qq: rk.ref_call(spec, qq.reshape(1, d), X, th_cov, n)[0], q, i, h[i] / 2)
+                if np.max(np.abs(Js - J[i])) > 1e-5 * (np.max(np.abs(J[i])) + np.sqrt(a2) / L[i] * 1e-3):
+                    raise AssertionError("oracle self-check failed: analytic and numerical kernel-row Jacobians disagree")
         prior = np.diag(a2 / L**2)
         ref = prior - J @ sla.solve(K, J.T, assume_a="sym")
         C = g_cov[k]
